@@ -70,6 +70,7 @@ func (p c19) Run(c *core.Ctx, idx int) {
 	o.Choices = idx%3 == 0
 	o.NestedChoice = idx%6 == 0
 	o.Aug = idx%4 == 1
+	o.AugSub = idx%8 == 1
 	o.Sub = idx%4 == 3 // some top-level nodes written in a submodule: they have the module's namespace
 	o.Presence = true
 	o.MaxDepth = 2 + r.Intn(3)
